@@ -700,8 +700,24 @@ func runC08(c *Ctx) {
 			}
 			// once the flag test has passed, the operation is decided by the underlying agent alone: no return with the
 			// flag at the required value is reachable without going through that call
-			if first := fn.Blocks[0].Instrs[0]; first != ssa.Instruction(agentCall) {
-				reach := ReachableAvoiding(first, map[ssa.Instruction]bool{agentCall: true})
+			{
+				// blocks reachable from the entry through blocks that can execute in this activation, not going past the
+				// block of the underlying call
+				reached := map[*ssa.BasicBlock]bool{}
+				work := []*ssa.BasicBlock{fn.Blocks[0]}
+				for len(work) > 0 {
+					b := work[len(work)-1]
+					work = work[:len(work)-1]
+					if reached[b] || !live(b) {
+						continue
+					}
+					reached[b] = true
+					if b == agentCall.Block() {
+						continue
+					}
+					work = append(work, b.Succs...)
+				}
+				reach := func(r *ssa.Return) bool { return reached[r.Block()] && r.Block() != agentCall.Block() }
 				for _, r := range liveReturns(fn) {
 					if !live(r.Block()) {
 						continue
